@@ -110,7 +110,63 @@ def approx_same_perm(ref, got, eps):
     return True
 
 
+def renamed_section(ctx):
+    """production names (renaming through public.postscriptNames: plain, swapping two names, chains, two glyphs colliding on one
+    name with a later glyph literally carrying the de-duplicated name) must not move outlines or advances between glyphs:
+    judged by glyph INDEX -- glyph k of the compiled CFF / CFF2 font draws the resolved outline of source glyph k"""
+    import ufo2ft
+    from fontTools.ttLib import TTFont
+    rng = ctx.subrng("renamed")
+    for i in range(ctx.budget(10, 60)):
+        desc = gen_component_font(rng, n=rng.randint(4, 7), max_depth=2, widths="int")
+        for g in desc["glyphs"]:
+            g["contours"] = [[(Fr(round(x)), Fr(round(y)), t) for x, y, t in c] for c in g["contours"]]
+            g["components"] = [(b, tuple(t[:4]) + (Fr(round(t[4])), Fr(round(t[5])))) for b, t in g["components"]]
+        names = [g["name"] for g in desc["glyphs"]]
+        a, b, c = names[0], names[1], names[2]
+        kind = ["collide-late", "swap", "chain", "collide", "plain"][i % 5]
+        ps = {"swap": {a: b, b: a}, "chain": {a: b, b: c, c: "glyph.c"}, "plain": {a: "uni0041.x", b: "glyph00002"},
+              "collide": {a: "dup", b: "dup"}, "collide-late": {a: "dup", b: "dup", c: "dup.1"}}[kind]
+        desc["glyphOrder"] = list(names)
+        desc["lib"] = {"public.postscriptNames": ps}
+        ver = [1, 2][(i // 5) % 2]
+        lib = ["ufoLib2", "defcon"][i % 2]
+        case = {"font": jsonable(desc), "lib": lib, "options": {"cffVersion": ver, "useProductionNames": True}, "rename_kind": kind, "level": "renamed"}
+        ctx.count(); ctx.klass("sem:renamed:%s/cff%d" % (kind, ver)); ctx.nontriv(("ren", i, ctx.scale))
+        try:
+            tt = ufo2ft.compileOTF(build_font(desc, lib), cffVersion=ver)
+            buf = io.BytesIO(); tt.save(buf); buf.seek(0); tt = TTFont(buf)
+        except Exception as e:
+            ctx.spec_failure(case, "compileOTF raised %s: %s\n%s" % (type(e).__name__, e, traceback.format_exc()[-1200:]))
+            continue
+        order = tt.getGlyphOrder()
+        gs = tt.getGlyphSet()
+        by = {g["name"]: g for g in desc["glyphs"]}
+        if len(order) != len(names) + 1:
+            ctx.spec_failure(case, "glyph count %d, expected %d" % (len(order), len(names) + 1))
+            continue
+        for k, g in enumerate(desc["glyphs"]):
+            final = order[k + 1]
+            try:
+                ref = [geom.round_segments(geom.elevate(sg, inexact_guard=True), Fr(1, 2)) for sg in geom.ref_resolve(by, g["name"])]
+            except geom.NearHalf:
+                continue
+            if degenerate(ref):
+                continue
+            got = geom.recorded_to_segments(geom.drawn_segments(gs[final]))
+            norm = lambda ss: [geom.cyc_canon(geom.merge_axis_lines(x)) for x in ss]
+            if norm(ref) != norm(got):
+                ctx.spec_failure(dict(case, glyph_index=k + 1, source_glyph=g["name"], final_name=final),
+                                 "glyph #%d (source %r, final name %r) does not draw its own resolved source outline" % (k + 1, g["name"], final))
+                break
+            if tt["hmtx"][final][0] != geom.ot_round(g["width"]):
+                ctx.spec_failure(dict(case, glyph_index=k + 1, source_glyph=g["name"]), "advance of glyph #%d is %r, source width %s" % (
+                    k + 1, tt["hmtx"][final][0], g["width"]))
+                break
+
+
 def explore(ctx):
+    renamed_section(ctx)
     import ufo2ft
     from ufo2ft.preProcessor import OTFPreProcessor
     from fontTools.ttLib import TTFont
